@@ -23,17 +23,27 @@ Fixpoint assoc_nat (k : str) (l : list (str * nat)) : nat :=
 (* "-" + token[-1] *)
 Definition last_flag (t : str) : str := match rev t with c :: _ => [45; c] | [] => [45] end.
 
-(* the loop that skips a wrapper's own options: "--" ends them, an option of [with_arg] takes the
-   next word (also as the last letter of a short cluster), any other word starting with "-" (longer
-   than "-") is an option without argument *)
+(* the loop that skips a wrapper's own options: "--" ends them; an option of [with_arg] takes the next word; a word
+   "--xyz" without "=" that is a prefix of a long option of [with_arg] (an abbreviation) takes the next word too; in a
+   short cluster the first letter that is an option with an argument takes the rest of the word, or - as the last
+   letter - the next word; any other word starting with "-" (longer than "-") is an option without argument *)
+Fixpoint first_arg_letter (with_arg : list str) (cs : str) (k : nat) : nat :=      (* index of the first such letter, or the length *)
+  match cs with
+  | [] => k
+  | c :: r => if mem_str [45; c] with_arg then k else first_arg_letter with_arg r (S k)
+  end.
 Fixpoint skip_wrapper_opts (with_arg : list str) (ts : list str) : list str :=
   match ts with
   | [] => []
   | t :: r =>
       if str_eqb t [45;45] then r
       else if mem_str t with_arg then match r with [] => [] | _ :: r' => skip_wrapper_opts with_arg r' end
+      else if prefixb [45;45] t && negb (mem_ch 61 t) then
+        if existsb (fun f => prefixb [45;45] f && prefixb t f) with_arg
+        then match r with [] => [] | _ :: r' => skip_wrapper_opts with_arg r' end
+        else skip_wrapper_opts with_arg r
       else if prefixb [45] t && Nat.ltb 1 (length t) then
-        if negb (prefixb [45;45] t) && mem_str (last_flag t) with_arg
+        if negb (prefixb [45;45] t) && Nat.eqb (first_arg_letter with_arg (tl t) 1) (length t - 1)
         then match r with [] => [] | _ :: r' => skip_wrapper_opts with_arg r' end
         else skip_wrapper_opts with_arg r
       else ts
